@@ -59,6 +59,10 @@ func (l *lazy) setClient(client Client) {
 		client.SetValidatorCache(l.valCache)
 	}
 
+	if l.proposerDutiesCache != nil || l.attesterDutiesCache != nil || l.syncCommDutiesCache != nil {
+		client.SetDutiesCache(l.proposerDutiesCache, l.attesterDutiesCache, l.syncCommDutiesCache)
+	}
+
 	l.client = client
 }
 
